@@ -91,6 +91,8 @@ def run(case, ctx, rng):
         call(h, rng.randbytes(9), bitlen=13) if not name.startswith('blake') else call(h, rng.randbytes(9), rng.getrandbits(64), 13)
         if case['j'] % 2:
             call(lambda: (h.initstate(), h.update(bytes(B))))
+            call(h.update, b'an incomplete block')          # (refused by the streaming interface; must leave nothing behind)
+            call(h.update, bytes(B + 3))
         K = rng.randbytes(rng.choice([0, 7, B + 5])); M = rng.randbytes(rng.choice([0, 33, B]))
         mac = call(HMAC, h, K)
         ctx.eq('used-hash:hmac==rfc2104', mac if is_exc(mac) else call(mac, M), ref(name, K, M), h=name, K=K, M=M)
